@@ -27,7 +27,7 @@ STUBS = ["vp.memfs mounted (file_parser.open, os façade, finder.tqdm identity, 
 ASSUMPTIONS = ["-p filtering is modelled as restricting the configuration dict to the selected platforms (what __main__/tree do after "
                "loading); the TOML/CLI parsing around it is outside the claim",
                "once the symbolic bits are decided all data is concrete and the real code runs untraced on that leaf"]
-BOUNDS = {"quick": "6 scenario templates x 3 commands; every assignment of commands to 3 platforms, 3 of the 6 orders, 4 of the 8 platform subsets, 2 -D bits",
+BOUNDS = {"quick": "7 scenario templates x 3 commands; every assignment of commands to 3 platforms, 2 of the 6 orders, 3 of the 8 platform subsets, 2 -D bits",
           "thorough": "all 6 orders and all 8 subsets"}
 EXPLANATION = ("Assignment, order, subset and -D bits are bounded symbolic values exhausted by CrossHair; on each leaf the real finder.find is run "
                "on the full configuration, on each command alone, on the permuted and on the filtered configuration, and all results are "
@@ -109,7 +109,20 @@ def t_inc_paths(d):
     return files, cmds
 
 
-TEMPLATES = {"inc_paths": t_inc_paths, "shared_define": t_shared_define, "pragma_once": t_pragma_once, "undef_cmdline": t_undef_cmdline,
+def t_same_file_inc(d):
+    """one source file compiled by several commands whose -I lists make the same spelling resolve differently"""
+    files = {
+        "/r/src/m.c": ["#include <config.h>", "#if BACKEND == 2", "@", "#elif BACKEND == 1", "@", "#else", "@", "#endif", "@"],
+        "/r/cfg_n/config.h": ["#define BACKEND 1", "@"],
+        "/r/cfg_d/config.h": ["#define BACKEND 2", "@"],
+        "/r/cfg_r/config.h": ["@"],
+    }
+    cmds = [scen.entry("/r/src/m.c", [], ["/r/cfg_n"]), scen.entry("/r/src/m.c", [], ["/r/cfg_d"]),
+            scen.entry("/r/src/m.c", [], ["/r/cfg_r"] if d[0] else (["/r/cfg_d", "/r/cfg_n"] if d[1] else ["/r/cfg_n", "/r/cfg_d"]))]
+    return files, cmds
+
+
+TEMPLATES = {"same_file_inc": t_same_file_inc, "inc_paths": t_inc_paths, "shared_define": t_shared_define, "pragma_once": t_pragma_once, "undef_cmdline": t_undef_cmdline,
              "same_file_two_defs": t_same_file_two_defs, "two_dirs": t_two_dirs}
 PLATS = ["p", "q", "r"]
 
@@ -234,7 +247,7 @@ def obligations(tier, known):
     obs = []
     for t in TEMPLATES:
         for fx in range(3):
-            obs.append(Ob(id="iso/%s/a0=%d" % (t, fx), kind="ch", module=__name__, func="h_iso", params=dict(t=t, fix=fx, nperm=3 if tier == "quick" else 6, nsel=4 if tier == "quick" else 8), timeout=600,
+            obs.append(Ob(id="iso/%s/a0=%d" % (t, fx), kind="ch", module=__name__, func="h_iso", params=dict(t=t, fix=fx, nperm=2 if tier == "quick" else 6, nsel=3 if tier == "quick" else 8), timeout=600,
                           group="iso"))
     return obs
 
@@ -243,5 +256,5 @@ CLAIM = ("For every assignment of three commands to up to three platforms, every
          "6 scenarios with shared headers (guards, #pragma once, #undef of command-line macros, same header from two directories), the "
          "full analysis equals the union of fresh single-command analyses, the reference preprocessor, its own permutations and the "
          "projection of itself - exhausted by CrossHair.")
-LEVEL_NOTE = ("Trusted: CrossHair/z3 for the enumeration, vp/memfs.py, vp/refs/ref_cpp.py (gcc -E on replay). Bounded: 6 templates, 3 commands, "
+LEVEL_NOTE = ("Trusted: CrossHair/z3 for the enumeration, vp/memfs.py, vp/refs/ref_cpp.py (gcc -E on replay). Bounded: 7 templates, 3 commands, "
               "3 platforms. CLI -p parsing is outside.")
